@@ -23,7 +23,8 @@ fn filter(wtm: bool, class: u8, u: u32, tag: &str) -> (Pos, Mv, bool) {
     let p = any_pos_around(bb, wtm);
     kani::assume(legal_position(&p));
     let m = any_mv();
-    kani::assume(gen_pseudo(&p, m));
+    // any candidate the movement rules allow (a superset of what the generator emits today)
+    kani::assume(fide_pseudo(&p, m));
     let k = p.kind_at(p.us(), m.from);
     match class {
         0 => kani::assume(k >= 2 && k <= 5),
@@ -141,7 +142,9 @@ fn generator_on<const MAX: usize, const MODE: u8>(p: Pos, tag: &str) -> (Pos, us
             let m = *list[i];
             let d = mv_of(&m);
             println!("CASE {{\"harness\":\"{}\",\"listed\":{},\"from\":{},\"to\":{},\"promo\":{},\"raw\":{}}}", tag, i, d.from, d.to, d.promo, m.as_raw());
-            assert!(gen_pseudo(&p, d), "every generated move obeys the movement rules of its piece");
+            // (only the movement rules are demanded of a candidate: whether squares the opponent attacks are
+            // weeded out here or by the legality filter is the implementation's business)
+            assert!(fide_pseudo(&p, d), "every generated move obeys the movement rules of its piece");
             assert!(m == build_move(&p, d), "every generated move carries the right attributes (piece, colour, capture kind, promotion, ep flag, castle side, double step)");
             // no duplicates
             let j: usize = kani::any();
@@ -150,11 +153,11 @@ fn generator_on<const MAX: usize, const MODE: u8>(p: Pos, tag: &str) -> (Pos, us
             }
         }
     } else {
-        // completeness: every candidate by the rules is in the list
+        // completeness: every *legal* move is in the list
         let want = any_mv();
         print_mv(tag, want);
-        if gen_pseudo(&p, want) {
-            assert!(find_in_list::<MAX>(&list, build_move(&p, want)), "every move allowed by the rules is generated");
+        if legal_ref(&p, want) {
+            assert!(find_in_list::<MAX>(&list, build_move(&p, want)), "every legal move is generated");
         }
     }
     (p, len)
